@@ -1133,6 +1133,12 @@ func c01runHist(r *Run, seed uint64, idx, nops, flags int, rec bool) (sig, what 
 		}
 		preBook = c01bookDump(h.f)
 	}
+	preMerges := map[string][]c01rect{}
+	for _, sh := range list {
+		if l, ok := c01storedMerges(h.f, sh); ok {
+			preMerges[sh] = l
+		}
+	}
 	g, err := c01save(h.f, how)
 	if err != nil {
 		return "hist:save-error", "save/open failed: " + err.Error(), h.log
@@ -1160,9 +1166,59 @@ func c01runHist(r *Run, seed uint64, idx, nops, flags int, rec bool) (sig, what 
 		r.Op("hbook "+preBook, "ok "+c01bookDump(g))
 		r.Stat("hbook")
 	}
+	mergeLine := map[string]int{}
+	postMerges := map[string][]c01rect{}
+	for _, sh := range list {
+		if l, ok := c01storedMerges(g, sh); ok {
+			postMerges[sh] = l
+			if rec {
+				mergeLine[sh] = r.Op("hmerge "+c01rectsWire(preMerges[sh]), "ok "+c01rectsWire(l))
+				r.Stat("hmerge")
+			}
+		}
+	}
 	after := c01observe(g, h.maxRow, h.maxCol)
+	// open finding: MergeCell only appends; the save replaces overlapping stored ranges by their bounding
+	// range, which changes where the cells between them are redirected. Attribution is per observation:
+	// a differing cell observation is explained only if that cell's anchor under the stored list before
+	// the save differs from its anchor under the stored list after open (and the lists overlapped).
+	explained, line := 0, 0
+	for k := range before {
+		if before[k] == after[k] {
+			continue
+		}
+		p := strings.Split(k, ":")
+		if len(p) == 5 && p[0] == "sh" && p[2] == "cell" && c01rectsOverlap(preMerges[p[1]]) {
+			if c, rr, err := xl.CellNameToCoordinates(p[3]); err == nil && c01anchor(preMerges[p[1]], c, rr) != c01anchor(postMerges[p[1]], c, rr) {
+				explained++
+				line = mergeLine[p[1]]
+				delete(after, k)
+				delete(before, k)
+			}
+		}
+	}
+	for k := range after {
+		if _, ok := before[k]; !ok {
+			p := strings.Split(k, ":")
+			if len(p) == 5 && p[0] == "sh" && p[2] == "cell" && c01rectsOverlap(preMerges[p[1]]) {
+				if c, rr, err := xl.CellNameToCoordinates(p[3]); err == nil && c01anchor(preMerges[p[1]], c, rr) != c01anchor(postMerges[p[1]], c, rr) {
+					explained++
+					line = mergeLine[p[1]]
+					delete(after, k)
+				}
+			}
+		}
+	}
 	if k, d := c01diff(before, after); k != "" {
 		return "hist:save-open-changes:" + k, d, h.log
+	}
+	if explained > 0 {
+		if rec {
+			r.Fail(c01mergeSig, fmt.Sprintf("%d cell observations changed on save+open because overlapping stored merged ranges were replaced by their bounding range", explained), line, strings.Join(h.log, "\n")+fmt.Sprintf("\nhist %d %d %d %d", seed, idx, nops, flags))
+			r.Stat("hist:explained-by-overlapping-merges")
+		}
+		// the reopened workbook is the reference for the second cycle
+		after = c01observe(g, h.maxRow, h.maxCol)
 	}
 	g2, err := c01save(g, how+2)
 	if err != nil {
@@ -1240,6 +1296,7 @@ func runC01(r *Run, rng *Rng, replay string) {
 	}
 	c01afterSave(r)
 	c01farCell(r)
+	c01mergeWitness(r)
 	c01attrPairs(r)
 	nAttr := 150
 	if thorough {
@@ -1440,6 +1497,8 @@ func c01replay(r *Run, path string) {
 			c01afterSave(r)
 		case "farcell":
 			c01farCell(r)
+		case "mergewitness":
+			c01mergeWitness(r)
 		case "rowseq":
 			c01rowseq(r, rest)
 		case "colseq":
